@@ -605,7 +605,7 @@ def defs_cases(run: Run):
     thorough = run.tier == "thorough"
     cases = cdefs.exhaustive_signature_cases(thorough)
     rng = run.rng("defs")
-    for i in range(6000 if thorough else 1200):
+    for i in range(6000 if thorough else 2000):
         if i % 2:
             base = sampled_case(rng, FAMILIES[(i // 2) % len(FAMILIES)])
         else:
@@ -621,7 +621,7 @@ def defs_cases(run: Run):
             base = dict(names=nm, anc=anc, family=f"small-{n}")
         cases.append(cdefs.sampled_defs_case(rng, base, defect=(i % 4 == 3)))
     rng = run.rng("ctor-keys")
-    bases = [sampled_case(rng, FAMILIES[i % len(FAMILIES)]) for i in range(1200 if thorough else 240)]
+    bases = [sampled_case(rng, FAMILIES[i % len(FAMILIES)]) for i in range(1200 if thorough else 400)]
     bases += [dict(names=list(NAMES_A[:n]), anc={c: [p for p in NAMES_A[:n] if p < c and rng.random() < 0.6] for c in NAMES_A[:n]}, family="small")
               for n in (1, 2, 2, 3, 3, 3) for _ in range(10)]
     cases += cdefs.ctor_keys_cases(rng, bases)
